@@ -30,6 +30,9 @@
 (*   NoRace         no two processes are simultaneously about to access the same plain variable, one writing    *)
 (*   LockSanity     mutual exclusion of the modelled mutexes                                                    *)
 (*   NoStuck        no operation blocks forever: every state without successor is the terminal one              *)
+(* Independent inputs: an operation works on objects of its own (its context, a freshly parsed stamp source, local   *)
+(* decode buffers). Break = "shared_source" lets every operation use ONE process-wide mutable object instead (a cached  *)
+(* parsed stamp file that is dereferenced lazily, a package-level scratch buffer of a stream filter): NoRace is refuted. *)
 (* Break # "none" weakens the model on purpose; TLC must then find a violation (checked on every run).          *)
 EXTENDS ConcModel, Sequences, TLC
 
@@ -37,7 +40,7 @@ CONSTANTS Readers, Reloaders,   \* sets of model values
           OpsR, OpsW,           \* operations per reader / reloader
           MaxGen,               \* the environment installs generations 1..MaxGen after generation 0
           Discipline,           \* BOOLEAN, see above
-          Break                 \* "none" | "publish_early" | "late_disable" | "no_rlock" | "once_outside"
+          Break                 \* "none" | "publish_early" | "late_disable" | "no_rlock" | "once_outside" | "shared_source"
 
 Workers == Readers \cup Reloaders
 Procs   == Workers \cup {"main"}
@@ -250,6 +253,7 @@ Fresh == \A p \in Readers : pc[p] = "k_runlock" =>
 Access(p) == CASE pc[p] = "m_write"  -> {<<"configPath", "w">>}
                [] pc[p] = "m_setlog" -> {<<"logger", "w">>}
                [] pc[p] = "conf"     -> {<<"configPath", "r">>, <<"logger", "r">>}
+                                        \cup (IF Break = "shared_source" THEN {<<"sharedSource", "w">>} ELSE {})
                [] pc[p] \in {"d_clear", "d_fill"} -> {<<"map", "w">>}
                [] pc[p] = "k_read"   -> {<<"map", "r">>}
                [] pc[p] \in {"l_setonce", "w_once"} -> {<<"loadErr", "w">>}
